@@ -566,7 +566,10 @@ def build_sig(a):
     if c == "csr":
         return csr.Signature(addr_width=a["aw"], data_width=a["dw"])
     if c == "elem":
-        return csr.Element.Signature(a["width"], a["access"])
+        acc = a["access"]
+        if a["width"] % 2 == 1 and acc in ("r", "w", "rw"):
+            acc = csr.Element.Access(acc)          # the enum spelling of the same parameter
+        return csr.Element.Signature(a["width"], acc)
     if c == "field":
         return csr.FieldPort.Signature(real_shape(a["shape"]), a["access"])
     if c == "wb":
@@ -575,7 +578,10 @@ def build_sig(a):
         key = a["aw"] * 3 + a["dw"] + sum((k + 1) * b for k, b in enumerate(a["feat"]))
         return wishbone.Signature(addr_width=a["aw"], data_width=a["dw"], features=spell(fs, key), **kw)
     if c == "src":
-        return event.Source.Signature(trigger=a["trigger"])
+        trg = a["trigger"]
+        if trg in ("rise", "fall"):
+            trg = event.Source.Trigger(trg)        # the enum spelling of the same parameter
+        return event.Source.Signature(trigger=trg)
     return gpio.PinSignature()
 
 
